@@ -913,7 +913,9 @@ pub struct PipeCase {
 pub fn check_pipeline(c: &PipeCase, st: &mut Stats) -> Result<(), Viol> {
     let mut s = S::new(&c.seeds);
     let seed = s.raw() as u64;
-    let n = 2 + s.pick(5);
+    // (a fifth of the cases have a big channel: 10-12 connections, all on #p)
+    let big = s.chance(20);
+    let n = if big { 10 + s.pick(3) } else { 2 + s.pick(5) };
     let mut w = World::new(CfgSpec::default().to_main_config(), seed);
     for i in 0..n {
         let c = w.connect();
@@ -923,7 +925,7 @@ pub fn check_pipeline(c: &PipeCase, st: &mut Stats) -> Result<(), Viol> {
         w.drain(c);
     }
     for i in 0..n {
-        if s.chance(70) {
+        if big || s.chance(70) {
             w.send_line(i, "JOIN #p");
         }
         w.settle();
